@@ -772,11 +772,12 @@ def next_uid():
 
 
 def normalise_script(steps):
-    """Tester script (from TLC) -> script that ends with: callback released,
-    a valid indication."""
+    """Tester script (from TLC): [(op, class, request number)] with op in
+    req | block | release | peerclose -> script that ends with: callback
+    released, a valid indication.  Steps are [op, class or None, number]."""
     out = []
     held = False
-    for op, cls in steps:
+    for op, cls, idx in steps:
         if op == "block":
             if held:
                 continue
@@ -785,13 +786,14 @@ def normalise_script(steps):
             if not held:
                 continue
             held = False
-        out.append((op, dict(cls) if op == "req" else None))
+        out.append([op, dict(cls) if op == "req" else None, int(idx)])
     if held:
-        out.append(("release", None))
-    k = max([i for i, (op, _) in enumerate(out) if op == "release"] or [-1])
+        out.append(["release", None, 0])
+    k = max([i for i, st in enumerate(out) if st[0] == "release"] or [-1])
     if not (out and out[-1][0] == "req" and not deviations(out[-1][1])
             and k < len(out) - 1):
-        out.append(("req", dict(VALID)))
+        n = sum(1 for st in out if st[0] == "req")
+        out.append(["req", dict(VALID), n + 1])
     return out
 
 
@@ -803,26 +805,58 @@ def run_history(box, rng, classes, reqs=None, steps=None, drain_wait=0.0):
     of `classes`; `drain_wait`: how long the tester is prepared to wait before
     a request to see the queue drained (0: it never claims to have seen it)."""
     if steps is None:
-        steps = [("req", c) for c in classes]
-    classes = [c for op, c in steps if op == "req"]
+        steps = [["req", c, i + 1] for i, c in enumerate(classes)]
+    classes = [st[1] for st in steps if st[0] == "req"]
     h = History(classes)
     h.steps = steps
     h.box_qcap = box.want_qcap
     pending = []
     done = []
     idx = -1
-    for op, cls in steps:
+
+    def give_up(item):
+        """the peer gives up on a request the server waits on"""
+        req, c, info = item
+        c.half_close()
+        if not c.drain(2.0):
+            box.dirty = True
+        info["after_peer_close"] = c.buf[:60].decode("latin-1")
+        # what the handler wrote once it had its EOF is not judged (the peer
+        # had given up), but the tester must know whether an indication went
+        # into the queue
+        o2 = project(c.buf, c.eof, req)[0] if c.buf else blank_obs("closed")
+        if o2["status"] == 200 and o2["leaf"] == [] and o2["bodywf"]:
+            info["accepted_after_peer_close"] = True
+            with box.lock:
+                box.accepted.add(req.marker)
+        elif not (o2["outcome"] == "response" and o2["nresp"] == 1 and
+                  (o2["status"] >= 400 or o2["leaf"] == ["ERROR"])):
+            box.dirty = True
+        c.close()
+
+    gave_up = []
+    for op, cls, num in steps:
         if op == "block":
             box.hold()
             continue
         if op == "release":
             box.release()
             continue
+        if op == "peerclose":
+            for item in list(pending):
+                if item[0].number == num:
+                    pending.remove(item)
+                    gave_up.append(item)
+                    give_up(item)
+            continue
         idx += 1
         req = reqs[idx] if reqs else concretise(rng, cls, next_uid())
-        env = {"qcap": box.qcap,
-               "drained": bool(drain_wait > 0 and not pending and
-                               box.seen_drained(drain_wait))}
+        req.number = idx + 1
+        # a tester that is prepared to wait does so before every request it
+        # sends while it does not hold the callback; it claims 'drained' only
+        # if, in addition, none of its earlier connections is still open
+        seen = drain_wait > 0 and box.seen_drained(drain_wait)
+        env = {"qcap": box.qcap, "drained": bool(seen and not pending)}
         try:
             c = Conn(box.port, req.raw)
         except OSError as exc:
@@ -870,22 +904,16 @@ def run_history(box, rng, classes, reqs=None, steps=None, drain_wait=0.0):
             box.dirty = True
         done.append((req, o, info, env))
     box.release()
-    # peers give up on the requests the server waits on
-    for req, c, info in pending:
-        c.half_close()
-        if not c.drain(2.0):
-            box.dirty = True
-        info["after_peer_close"] = c.buf[:60].decode("latin-1")
-        if info["after_peer_close"].startswith("HTTP/1.0 200"):
-            with box.lock:
-                box.accepted.add(req.marker)
-        c.close()
+    # peers give up on the requests the server still waits on
+    for item in pending:
+        give_up(item)
+    pending = gave_up + pending
     # let the callback thread catch up: every 200/success answer (also those
     # written after a peer close) names an indication that must show up
     want = [req.marker for req, o, info, env in done
             if o["status"] == 200 and o["leaf"] == [] and o["bodywf"]]
     want += [req.marker for req, c, info in pending
-             if info.get("after_peer_close", "").startswith("HTTP/1.0 200")]
+             if info.get("accepted_after_peer_close")]
     t0 = time.time()
     while time.time() - t0 < T_DELIVER:
         if all(box.delivered(m) >= 1 for m in want):
